@@ -8,6 +8,8 @@ package workceptor
 // B's output and become equal to it.
 
 import (
+	"encoding/pem"
+	"crypto/x509"
 	"context"
 	"encoding/json"
 	"fmt"
@@ -193,6 +195,9 @@ type mirArgs struct {
 	// recorded the final status but before its copy of the output was complete (the two are written by separate
 	// monitors); the link stays up and the restarted node has to complete the copy
 	RestartMode string `json:"restart_mode"`
+	// the work is signed: the submitting node signs every request to the executing node with a token that is good for
+	// three seconds; the executing node verifies.  An outage longer than that must not stop the copy for good.
+	Signed bool `json:"signed"`
 }
 
 func mirByte(i int64) byte { return byte((i*13 + i/253) % 256) }
@@ -238,7 +243,14 @@ func mirApply(op string, raw json.RawMessage) interface{} {
 		return map[string]interface{}{"error": err.Error()}
 	}
 	MainInstance = wA
-	if err := wB.RegisterWorker("prod", mirNewUnit, false); err != nil {
+	if a.Signed {
+		sigSetup()
+		privFile := path.Join(dir, "sign.pem")
+		_ = os.WriteFile(privFile, pem.EncodeToMemory(&pem.Block{Type: "RSA PRIVATE KEY", Bytes: x509.MarshalPKCS1PrivateKey(sigKey)}), 0o600)
+		wA.SigningKey, wA.SigningExpiration = privFile, 3*time.Second
+		wB.VerifyingKey = sigPubFile
+	}
+	if err := wB.RegisterWorker("prod", mirNewUnit, a.Signed); err != nil {
 		return map[string]interface{}{"error": err.Error()}
 	}
 	csB := controlsvc.New(true, nB)
@@ -258,7 +270,11 @@ func mirApply(op string, raw json.RawMessage) interface{} {
 	}
 	// A submits the remote unit
 	t := &workceptorCommandType{w: wA}
-	cmd, err := t.InitFromJSON(map[string]interface{}{"command": "work", "subcommand": "submit", "node": "mirB", "worktype": "prod"})
+	submitCfg := map[string]interface{}{"command": "work", "subcommand": "submit", "node": "mirB", "worktype": "prod"}
+	if a.Signed {
+		submitCfg["signwork"] = "true"
+	}
+	cmd, err := t.InitFromJSON(submitCfg)
 	if err != nil {
 		return map[string]interface{}{"error": err.Error()}
 	}
@@ -464,6 +480,12 @@ func mirGen(v *verifRun) {
 			}
 		}
 		a.Events = append(a.Events, mirEv{K: "finish"})
+		v.do(mirApply, "mirror", a)
+	}
+	// signed work and an outage longer than a token's lifetime while output is being copied
+	for i := 0; i < 1+v.n/6; i++ {
+		a := mirArgs{Signed: true, Events: []mirEv{{K: "append", N: 2000}, {K: "record"}, {K: "sleep", N: 1500}, {K: "append", N: 150000}, {K: "record"},
+			{K: "sleep", N: 20}, {K: "cut"}, {K: "append", N: 3000}, {K: "record"}, {K: "sleep", N: 4500}, {K: "restore"}, {K: "finish"}}}
 		v.do(mirApply, "mirror", a)
 	}
 	// short datagrams late: the reply line of a results request and the first data arrive together
